@@ -213,6 +213,7 @@ def gen_case(rng, dtypes):
             case["vc"] = "pd"
             case["index"] = {"kind": "int", "vals": [int(x) for x in rng.permutation(n) + 100]}
     case["do_transform"] = bool(rng.random() < 0.5)
+    common.add_route(rng, case, 0.2)
     case["pseed"] = int(rng.integers(1 << 30))
     return case
 
